@@ -198,3 +198,24 @@ func GovcC03RealMulV() {
     }
   }
 }
+
+// quick-tier variant of the matrix-vector product check: receivers that already hold entries
+func GovcC03MdotVQuick() {
+  n := 2
+  a0 := govcSymVals("a", n*n)
+  x0 := []float64{govcSym("x0"), govcSym("x1")}
+  for sm := 0; sm < 2; sm++ {
+    for sv := 0; sv < 2; sv++ {
+      for _, sr := range []int{1, 3} {
+        a := govcMatrix(a0, n, n, sm)
+        x := govcVector(x0, sv)
+        r := govcReceiver(n, sr)
+        r.MdotV(a, x)
+        tag := fmt.Sprintf("[r%d,m%d,v%d]", sr, sm, sv)
+        for i := 0; i < n; i++ {
+          govcCheckEq(fmt.Sprintf("MdotV%s[%d]", tag, i), r.ConstAt(i).GetFloat64(), a0[i*n]*x0[0]+a0[i*n+1]*x0[1])
+        }
+      }
+    }
+  }
+}
